@@ -19,82 +19,82 @@ NOT_APPLICABLE = {
 }
 CHECKS = {
     'C01': {
-        'text': 'every operator chain of <=3 operators over distinct primes with one decoration (-,+,%) and one parenthesis pair (exhaustive in the thorough tier), Hypothesis typed expression trees over literals and references fed by workbook constants / overrides / blanks, and a numeric-literal grid, each evaluated through Parser+Executor and compared with an independent precedence-aware evaluator; two open findings (misgrouped & / comparison, %) are attributed by structural trigger',
+        'text': 'every operator chain of <=3 operators over distinct primes with one decoration (-,+,%) and one parenthesis pair (exhaustive in the thorough tier), Hypothesis typed expression trees over literals and references fed by workbook constants / overrides / blanks, and a numeric-literal grid, each evaluated through Parser+Executor and compared with an independent precedence-aware evaluator; text forms under & (booleans, blanks, quotients); independent-executor witnesses around every override',
         'note': 'trusted: vf/ref/formula.py (own Pratt parser + evaluator written from the statement), IEEE doubles, tolerance 1e-12; text forms under & asserted for booleans, blanks and numbers without exponent form',
         'technique': 'exhaustive small-bound enumeration + Hypothesis typed ASTs vs reference evaluator (differential)',
     },
     'C10': {
-        'text': 'exhaustive grid of ~25k ordered operand pairs (numbers incl. fractions/signs, texts incl. numeric-looking, dates/date-times, blank) x 6 operators x both orders through overrides, plus samples as workbook constants and literals and Hypothesis-drawn doubles/texts; exact rational oracle for numbers, the algebraic laws for every same-kind pair',
+        'text': 'exhaustive grid of ~25k ordered operand pairs (numbers incl. fractions/signs, texts incl. numeric-looking, dates/date-times, blank) x 6 operators x both orders through overrides, integers beyond 2^53 that collapse to one double, 0 / FALSE / blank against the same partner inside one instance, plus samples as workbook constants and literals and Hypothesis-drawn doubles/texts; exact rational oracle for numbers, the algebraic laws for every same-kind pair',
         'note': 'trusted: fractions.Fraction, datetime, openpyxl writer; text collation is only checked against the laws',
         'technique': 'exhaustive grid + Hypothesis-drawn pairs against exact rational comparison and algebraic laws',
     },
     'C11': {
-        'text': 'Hypothesis-generated cell blocks (all content kinds) and argument lists (areas, whole columns, other sheets, cells, literals, re-split areas, embedded calls) for SUM/AVERAGE/MIN/MAX/COUNT/COUNTBLANK/AND/OR, compared with an independent fold over the generator\'s content map',
+        'text': 'Hypothesis-generated cell blocks (all content kinds) and argument lists (areas, whole columns, other sheets, cells, literals, re-split areas, embedded calls) for SUM/AVERAGE/MIN/MAX/COUNT/COUNTBLANK/AND/OR, the same texts on a second sheet, totals over a column of row-subtotal formulas, compared with an independent fold over the generator\'s content map',
         'note': 'trusted: the generator\'s content map and fold (vf/props/c11.py); dates only under COUNT/COUNTBLANK, AND/OR without text/blank, empty AVERAGE/MIN/MAX not asserted',
         'technique': 'Hypothesis structured generation vs independent fold (reference model) + metamorphic re-splitting',
     },
     'C12': {
-        'text': 'Hypothesis-generated criteria columns / target columns / criterion forms (plain, operator-prefixed, &-assembled, wildcard) for SUMIF/SUMIFS/COUNTIFS/AVERAGEIFS incl. misaligned ranges, compared with a select-then-fold oracle with its own wildcard matcher; three open findings in the criterion parser are attributed by criterion form',
+        'text': 'Hypothesis-generated criteria columns / target columns / criterion forms (plain, operator-prefixed, &-assembled, wildcard) for SUMIF/SUMIFS/COUNTIFS/AVERAGEIFS incl. misaligned ranges, two-column areas, SUMIF sum ranges of another size or orientation, criterion cells supplied through overrides, mixed ?* runs, compared with a select-then-fold oracle with its own wildcard matcher',
         'note': 'trusted: vf/props/c12.py oracle; blanks under numeric criteria, numbers under patterns, date criteria are outside the asserted domain',
         'technique': 'Hypothesis structured generation vs select-then-fold reference model',
     },
     'C13': {
-        'text': 'Hypothesis nests of IF/IFS/IFERROR up to depth 3, bare and embedded in operators/functions, evaluated under every truth assignment (true/zero/blank/5) of their condition cells through overrides and compared with a lazy reference evaluator (untaken failing branches must not surface)',
+        'text': 'Hypothesis nests of IF/IFS/IFERROR up to depth 3, bare and embedded in operators/functions, evaluated under every truth assignment (true/zero/blank/5) of their condition cells through overrides and compared with a lazy reference evaluator (untaken failing branches and conditions must not surface; failures of every kind: division by zero, error-valued cell, cell whose own formula raises, date function of a text, ranges of different sizes, lookup outside the table, text that is no number; #-texts that are no error values)',
         'note': 'trusted: vf/ref/formula.py lazy semantics; how error values travel through other operators is not asserted',
         'technique': 'Hypothesis ASTs x exhaustive truth assignments vs lazy reference evaluator',
     },
     'C14': {
-        'text': 'Hypothesis tables (ascending/unsorted/duplicate/text/blank keys, width 1-4) with VLOOKUP exact/approximate/omitted, MATCH 0/1/omitted, XMATCH from start/end, INDEX over every (r,c) around the area, INDEX(MATCH), COLUMN; ADDRESS exhaustively over all 16384 columns x sampled rows; oracle = independent linear search / direct indexing / bijective base-26',
+        'text': 'Hypothesis tables (ascending/unsorted/duplicate/text/blank keys, width 1-4) with VLOOKUP exact/approximate/omitted, MATCH 0/1/omitted, XMATCH from start/end and binary over ascending keys, mixed-case text keys, INDEX over every (r,c) around the area, INDEX(MATCH), COLUMN; ADDRESS exhaustively over all 16384 columns x sampled rows; oracle = independent linear search / direct indexing / bijective base-26',
         'note': 'trusted: vf/props/c14.py oracles; approximate matching only on ascending numeric keys; 0-index INDEX and binary XMATCH modes not asserted',
         'technique': 'Hypothesis + boundary construction vs reference search; exhaustive ADDRESS sweep',
     },
     'C15': {
-        'text': 'grids through overrides: DATE(y,m,d) over 6 years x months -30..40 x days -800..800 with YEAR/MONTH/DAY inverses, EDATE/EOMONTH over every day of 2019-2024 x offsets -60..60, DATEDIF D/M/Y/YM targeted at anniversaries, NETWORKDAYS both orders with seeded holiday sets, TODAY bracketed by two clock reads; oracle = datetime/calendar arithmetic (quick tier strides the grids, thorough enumerates them)',
+        'text': 'grids through overrides: DATE(y,m,d) over 6 years x months -30..40 x days -800..800 with YEAR/MONTH/DAY inverses, EDATE/EOMONTH over every day of 2019-2024 x offsets -60..60, DATEDIF D/M/Y/YM targeted at anniversaries, NETWORKDAYS both orders with seeded holiday sets, every month end as EDATE / EOMONTH start, years 1900 / 1901, TODAY bracketed by two clock reads and followed on one long-lived executor while a faked local date moves; oracle = datetime/calendar arithmetic (quick tier strides the grids, thorough enumerates them)',
         'note': 'trusted: python datetime/calendar; years 1904..9999; DATEDIF with start > end not asserted',
         'technique': 'exhaustive grid enumeration vs datetime/calendar reference',
     },
     'C16': {
-        'text': 'decimal grid sign x 9 integer parts x all four-digit fractions x digits -3..6 x ROUND/ROUNDUP/ROUNDDOWN (+1-argument forms, x%) through overrides (quick: every tie / every fraction ending in 0 or 5 / stride-37 background), samples as literals and constants, Hypothesis decimals up to 15 significant digits; oracle = decimal.quantize',
+        'text': 'decimal grid sign x 9 integer parts x all four-digit fractions x digits -3..6 x ROUND/ROUNDUP/ROUNDDOWN (+1-argument forms, x%) through overrides on one long-lived executor per operand (quick: every tie / every fraction ending in 0 or 5 / stride-37 background), samples as literals and constants, Hypothesis decimals up to 15 significant digits; oracle = decimal.quantize',
         'note': 'trusted: python decimal; operands are the doubles nearest to <=15-digit decimal texts',
         'technique': 'exhaustive decimal grid + Hypothesis decimals vs decimal.Decimal.quantize',
     },
     'C17': {
-        'text': 'Hypothesis texts over a mixed-case alphabet with wildcard and regex-special characters (as constants, literals, overrides) x positions/counts around the length for LEFT/RIGHT/MID, the rebuild identity, & / CONCATENATE, SEARCH (plain/wildcard/escaped/regex-special needles, start positions), VALUE; oracle = slicing, own wildcard prefix matcher, Decimal',
+        'text': 'Hypothesis texts over a mixed-case alphabet with wildcard and regex-special characters (as constants, literals, overrides) x positions/counts around the length for LEFT/RIGHT/MID, the rebuild identity, & / CONCATENATE (texts, numbers, quotients, booleans), SEARCH (plain/wildcard/escaped/regex-special needles, start positions), VALUE; oracle = slicing, own wildcard prefix matcher, Decimal',
         'note': 'trusted: vf/props/c17.py oracles; SEARCH start asserted for 1..len, text form of numbers only for ints / short decimals',
         'technique': 'Hypothesis structured generation vs substring-algebra reference + round-trip identity',
     },
     'C02': {
-        'text': 'Hypothesis workbooks of 2-4 coordinate-coded sheets (titles from identifier / unicode / cell-like / spaces / punctuation / leading-digit / ! / apostrophe classes) x reference forms ($-marks on any component; no / unquoted / quoted prefix; cell, column range, row range, rectangle, whole column(s); far cells up to XFD / row 99 999) x positions (bare, SUM/COUNT/MAX, INDEX, VLOOKUP, MATCH, SUMIF(S)/COUNTIFS/AVERAGEIFS, COLUMN), whole-file and entry-point translation; oracle = the generator\'s own coordinate map; a missing title must be rejected',
+        'text': 'Hypothesis workbooks of 2-4 coordinate-coded sheets (titles from identifier / unicode / cell-like / spaces / punctuation / leading-digit / ! / apostrophe classes) x reference forms ($-marks on any component; no / unquoted / quoted prefix; cell, column range, row range, rectangle, whole column(s); far cells up to XFD / row 99 999) x positions (bare, SUM/COUNT/MAX, INDEX, VLOOKUP, MATCH, SUMIF(S)/COUNTIFS/AVERAGEIFS, COLUMN), whole-file and entry-point translation; sheets without any cell between the others, digit-only titles that differ from the sheet\'s own index, the same unqualified text placed on two sheets and the same area text once per sheet; oracle = the generator\'s own coordinate map; a missing title must be rejected',
         'note': 'trusted: the coordinate code 1_000_003*sheet+1_009*col+row and vf/props/c02.py fold; reversed areas and whole-row references are not generated; nesting of a bare area result not asserted',
         'technique': 'Hypothesis structured generation vs coordinate-map reference model',
     },
     'C03': {
-        'text': 'Hypothesis dependency graphs (3-25 formula cells over 1-3 sheets; edges through cells, overlapping ranges, whole columns, cross-sheet references, shared sub-expressions, IF branches, INDEX) with every cell taken as entry in turn: members of the entry-point class vs the generator\'s closure, entry-point value == whole-file value == reference evaluator; cyclic variants (self loop, 2-cycle, long cycle, through a range, through an untaken IF branch) must raise E2PyclParserException whole-file and for every entry on or upstream of the cycle, and entries that avoid the cycle must still translate',
+        'text': 'Hypothesis dependency graphs (3-25 formula cells over 1-3 sheets; edges through cells, overlapping ranges, whole columns, cross-sheet references, shared sub-expressions, IF branches, INDEX) with every cell taken as entry in turn: members of the entry-point class vs the generator\'s closure, entry-point value == whole-file value == reference evaluator; cyclic variants (self loop, 2-cycle, long cycle, through a range, an untaken IF branch, the guarded or fallback argument of IFERROR, inside a function; rings of 1..100 cells built from +, SUM, IF, IFERROR) must raise E2PyclParserException whole-file and for every entry on or upstream of the cycle, and entries that avoid the cycle must still translate',
         'note': 'trusted: generator graph + vf/ref/formula.py; formulas are total numeric expressions; blank cells inside a referenced area need not be members',
         'technique': 'Hypothesis graph generation x exhaustive entry choice; differential (slice vs whole vs reference) + closure model',
     },
     'C04': {
-        'text': 'Hypothesis RuleBasedStateMachine: generated workbook (constants, formulas incl. an erroring cell and its dependants, blanks, 1-2 sheets) + histories of <= 12 set_cells batches / queries (same cell twice in a batch or again later, formula cells, blanks, cells beyond the used range, other sheets, A1/numeric/mixed addressing, int/float/text/bool/date values); at every query every cell is compared with a fresh translation of the edited workbook; histories with repeated writes are replayed in child processes under other PYTHONHASHSEED values',
+        'text': 'Hypothesis RuleBasedStateMachine: generated workbook (constants, formulas incl. an erroring cell and its dependants, blanks, 1-2 sheets) + histories of <= 12 set_cells batches / queries (same cell twice in a batch or again later, formula cells, blanks, cells beyond the used range, other sheets, A1/numeric/mixed addressing, int/float/text/bool/date values); at every query every cell and the whole-sheet grid are compared with a fresh translation of the edited workbook, a bystander executor on the same class must keep seeing the plain workbook and its sizes, values are re-written with an equal value of another type (1 / TRUE), cells are hashed before they are handed over; histories with repeated writes are replayed in child processes under other PYTHONHASHSEED values',
         'note': 'trusted: dict model cell -> last value, openpyxl writer; override values never start with "=", are not None/empty text/integral floats; whole-column references not generated',
         'technique': 'Hypothesis stateful (model-based) testing; metamorphic oracle override == edit-and-retranslate; hash-seed matrix',
     },
     'C08': {
-        'text': 'Hypothesis RuleBasedStateMachine: generated workbook (total formulas, 1-3 sheets, sparse layout, optional override set) + histories of <= 30 get_cell / get_cells / get_sheet calls with numeric, A1-style, title-or-index addressing, fresh and re-used Cell objects, a second Executor on the same class queried in between; every returned value vs a value table computed once with one fresh Executor per cell and cross-checked against the reference evaluator; grid shape = used range extended by overrides; sheet sizes and overrides unchanged by queries',
+        'text': 'Hypothesis RuleBasedStateMachine: generated workbook (total formulas, 1-3 sheets, sparse layout, optional override set) + histories of <= 30 get_cell / get_cells / get_sheet calls with numeric, A1-style, title-or-index addressing, fresh and re-used Cell objects, a second Executor on the same class queried in between (expectation from a second translation), digit-only sheet titles; every returned value vs a value table computed once with one fresh Executor per cell and cross-checked against the reference evaluator; grid shape = used range extended by overrides; sheet sizes and overrides unchanged by queries',
         'note': 'trusted: value table + vf/ref/formula.py; formulas from a total sub-grammar; COLUMN over multi-column areas excluded',
         'technique': 'Hypothesis stateful (model-based) testing vs value-table model; API/addressing metamorphic agreement',
     },
     'C09': {
-        'text': '(a) Hypothesis RuleBasedStateMachine on one Parser over a pool of workbooks (differing in one constant, permuted sheets, a suspicious cell, a malformed formula): set path / set-replace-clear entry / enable-disable safety / get / write, each get/write compared with a fresh Parser holding the same final settings, repeated gets identical, written file == returned text; (b) sha256 of the text for pool workbook x entry across child processes under several PYTHONHASHSEED values, cold and after other translations; (c) cold child processes with 8 barrier-released threads (switch interval 1 us) translating concurrently',
+        'text': '(a) Hypothesis RuleBasedStateMachine on one Parser over a pool of workbooks (differing in one constant, permuted sheets, a suspicious cell, a malformed formula): set path / set-replace-clear entry / enable-disable safety / get / write, each get/write compared with a fresh Parser holding the same final settings, repeated gets identical, written file == returned text; (b) sha256 of the text for pool workbook x entry across child processes under several PYTHONHASHSEED values, cold and after other translations; (c) cold child processes with 8 barrier-released threads (switch interval 1 us) translating concurrently, incl. a 400-cell reference chain that exceeds the default interpreter stack; writes go to one and the same file',
         'note': 'trusted: a fresh Parser as reference for a cached one (the relation the property states); threads only sample interleavings - the harness does not own the scheduler',
         'technique': 'Hypothesis stateful testing vs fresh-instance reference; process / hash-seed / thread differential on sha256',
     },
     'C18': {
-        'text': 'Hypothesis workbooks of 1-5 sheets (some empty), sparse cells with empty rows/columns inside the used range, first used cell away from A1, far cells (row <= 3000, column <= 400), values int / float / bool / text (printable + unicode) / date / date-time / formulas / ArrayFormula; every planted coordinate, its eight neighbours, the used-range corners and sampled blanks queried through Executor.get_cell on the class object and on the file-loaded class; get_titles / get_sheets_size vs the model',
+        'text': 'Hypothesis workbooks of 1-5 sheets (some empty), sparse cells with empty rows/columns inside the used range, first used cell away from A1, far cells (row <= 3000, column <= 400), stale <dimension> records, values int / float / bool / text (printable + unicode) / date / date-time / formulas / ArrayFormula; every planted coordinate, its eight neighbours, the used-range corners and sampled blanks queried through Executor.get_cell on the class object and on the file-loaded class; get_titles / get_sheets_size vs the model',
         'note': 'trusted: generator cell map normalised by xlsx storage rules, cross-checked against openpyxl\'s ordinary reader (disagreement = harness error); values restricted to what survives openpyxl itself',
         'technique': 'Hypothesis structured generation vs cell-map reference model (round trip through xlsx)',
     },
     'C19': {
-        'text': 'Hypothesis workbooks of 1-3 sheets with 0-6 planted suspicious cells (lower/mixed-case identifier immediately followed by a parenthesised list; as constants and inside formulas) and 0-10 innocent cells (upper-case Excel calls, parentheses without identifier, "print (1)", numbers, dates) at arbitrary (sheet, column, row), translated with the safety check on and off: rejected iff something is planted, listing is a bijection with the planted cells at their true title / A1 address with their fragments, no rejection when disabled',
+        'text': 'Hypothesis workbooks of 1-3 sheets with 0-6 planted suspicious cells (lower/mixed-case identifier immediately followed by a parenthesised list; as constants and inside formulas) and 0-10 innocent cells (upper-case Excel calls, parentheses without identifier, "print (1)", numbers, dates) at arbitrary (sheet, column, row), translated with the safety check on and off: rejected iff something is planted, listing is a bijection with the planted cells at their true title / A1 address with their fragments, no rejection when disabled; on one long-lived Parser the gate follows toggling and a file whose content changes under the same path',
         'note': 'trusted: the planted positions and an own call-syntax scanner; cells mixing lower- and upper-case calls and fragments spanning newlines are not planted; exact key format not asserted',
         'technique': 'Hypothesis structured generation vs planted-positions oracle',
     },
@@ -104,7 +104,7 @@ CHECKS = {
         'technique': 'Hypothesis grammar-based generation + token/character mutation fuzzing vs independent recogniser (differential accept/reject), reference evaluator and metamorphic whitespace / separator relations',
     },
     'C06': {
-        'text': 'Hypothesis workbooks (1-4 sheets, titles and texts from hostile alphabets: quotes, backslashes, newlines, braces, format fields, %, unicode; constants of every type openpyxl writes incl. huge / tiny / infinite numbers, dates, times, durations, error strings, ArrayFormula; valid formulas of the whole supported grammar; in the adversarial lane malformed / unsupported / truncated / token-soup formulas, missing sheets, row-0 and over-long references, cycles) translated whole-file and through every formula cell as entry point; a list of ~130 hand-picked hostile formulas; 17 size-parameterised families (bracket depth 40, nested SUM / IF / mixed calls, operator / sign / & chains, argument counts, forward and backward reference chains across cells, long literals, wide areas).  Outcome must be a library exception or text that compiles, loads, reports the titles and sizes of the workbook, has one callable member per non-blank cell, evaluates without NameError / SyntaxError, gives the stored value for constants and the same outcome through Executor(class_file=...) and Executor(class_object=...); a deterministic work counter (calls into the repository under sys.setprofile) must grow by less than x1.7 per size step',
+        'text': 'Hypothesis workbooks (1-4 sheets, titles and texts from hostile alphabets: quotes, backslashes, newlines, braces, format fields, %, unicode; constants of every type openpyxl writes incl. huge / tiny / infinite numbers, dates, times, durations, error strings, ArrayFormula; valid formulas of the whole supported grammar; in the adversarial lane malformed / unsupported / truncated / token-soup formulas, missing sheets, row-0 and over-long references, cycles) translated whole-file and through every formula cell as entry point; a list of ~130 hand-picked hostile formulas; 17 size-parameterised families (bracket depth 40, nested SUM / IF / mixed calls, operator / sign / & chains, argument counts, forward and backward reference chains across cells, long literals, wide areas).  Outcome must be a library exception or text that compiles, loads, reports the titles and sizes of the workbook, has one callable member per non-blank cell, evaluates without NameError / SyntaxError, gives the stored value for constants and the same outcome through Executor(class_file=...) and Executor(class_object=...); one Parser walked over the entry cells (retry after a failure, write_translation to one file); a deterministic work counter (calls into the repository under sys.setprofile) must grow by less than x1.7 per size step; seven families whose work sits inside regular expressions (quoted titles up to 31 characters, runs of spaces / quotes / $ / letters) are timed in killable child processes',
         'note': 'trusted: python compile / exec, openpyxl as the judge of what a file holds; evaluation errors of a formula are not judged (only NameError / SyntaxError / UnboundLocalError); an alarm that fires is inconclusive - non-termination is represented only by the work-growth bound on the families',
         'technique': 'Hypothesis structured + adversarial workbook fuzzing with outcome classification; size-parameterised families with a deterministic work counter',
     },
